@@ -20,14 +20,24 @@
 (* envelope; [validate]; encode; set alg; sign; marshal) so that a stale   *)
 (* envelope / stale claims design is expressible and excluded.             *)
 (***************************************************************************)
-EXTENDS Integers, Sequences, FiniteSets, TLC
-CONSTANTS Keys, Algs, ClaimIds, InvalidIds
+EXTENDS Integers, Sequences, FiniteSets
+\* (the @type comments are for Apalache, which checks the inductive invariant IndInv below; TLC ignores them)
+CONSTANTS
+  \* @type: Set(Str);
+  Keys,
+  \* @type: Set(Str);
+  Algs,
+  \* @type: Set(Str);
+  ClaimIds,
+  \* @type: Set(Str);
+  InvalidIds
 
 NoSig == [k |-> "none", a |-> "none", p |-> "nil"]
 Junk  == [k |-> "junk", a |-> "none", p |-> "nil"]
 Sig(k, a, p) == [k |-> k, a |-> a, p |-> p]
 NoMsg == [st |-> "none", payload |-> "nil", alg |-> "none", sig |-> NoSig]
 FreshMsg == [NoMsg EXCEPT !.st = "some"]                   \* cose.NewSign1Message()
+\* @type: (Str, { st: Str, payload: Str, alg: Str, sig: { k: Str, a: Str, p: Str } }, Bool) => { claims: Str, msg: { st: Str, payload: Str, alg: Str, sig: { k: Str, a: Str, p: Str } }, replaced: Bool };
 EvState(c, m, r) == [claims |-> c, msg |-> m, replaced |-> r]
 EvInit == EvState("nil", NoMsg, FALSE)
 Payloads == ClaimIds \cup {"garbage", "nil"}
@@ -39,16 +49,23 @@ ValidClaims(c) == c \in ClaimIds \ InvalidIds
 Signers == [kind : {"good"}, k : Keys, a : Algs] \cup [kind : {"err", "empty", "junk"}, k : {"none"}, a : Algs]
            \cup [kind : {"junk"}, k : {"none"}, a : {"unsupported"}]
 \* tokens that may be presented for decoding: a constant universe
-AllSigs == {NoSig, Junk} \cup {Sig(k, a, p) : k \in Keys, a \in Algs, p \in ClaimIds}
+\* an honest key may also have signed bytes that are no claims map (another application, an unknown profile):
+\* such "foreign" signatures exist from the start and are at the adversary's disposal
+ForeignSigs == {Sig(k, a, "garbage") : k \in Keys, a \in Algs}
+AllSigs == {NoSig, Junk} \cup {Sig(k, a, p) : k \in Keys, a \in Algs, p \in ClaimIds} \cup ForeignSigs
 TokenUniverse == [wf : BOOLEAN, payload : Payloads, alg : Algs \cup {"none", "unsupported"}, sig : AllSigs]
 
+\* @type: (Bool, { st: Str, payload: Str, alg: Str, sig: { k: Str, a: Str, p: Str } }) => { ok: Bool, tok: { st: Str, payload: Str, alg: Str, sig: { k: Str, a: Str, p: Str } } };
 Res(ok, tok) == [ok |-> ok, tok |-> tok]       \* tok: a token (envelope record) was returned, or NoMsg
 \* ---------- step functions: (state, args) -> [post, ret] ----------
+\* @type: ({ claims: Str, msg: { st: Str, payload: Str, alg: Str, sig: { k: Str, a: Str, p: Str } }, replaced: Bool }, Str) => { post: { claims: Str, msg: { st: Str, payload: Str, alg: Str, sig: { k: Str, a: Str, p: Str } }, replaced: Bool }, ret: { ok: Bool, tok: { st: Str, payload: Str, alg: Str, sig: { k: Str, a: Str, p: Str } } } };
 SetClaimsF(s, c) == IF ValidClaims(c) THEN [post |-> EvState(c, s.msg, TRUE), ret |-> Res(TRUE, NoMsg)]
                     ELSE [post |-> s, ret |-> Res(FALSE, NoMsg)]
 \* the unchecked e.Claims = c (public field)
+\* @type: ({ claims: Str, msg: { st: Str, payload: Str, alg: Str, sig: { k: Str, a: Str, p: Str } }, replaced: Bool }, Str) => { post: { claims: Str, msg: { st: Str, payload: Str, alg: Str, sig: { k: Str, a: Str, p: Str } }, replaced: Bool }, ret: { ok: Bool, tok: { st: Str, payload: Str, alg: Str, sig: { k: Str, a: Str, p: Str } } } };
 AttachF(s, c) == [post |-> EvState(c, s.msg, TRUE), ret |-> Res(TRUE, NoMsg)]
 \* Sign / ValidateAndSign: reset envelope -> [validate] -> encode -> set alg -> sign -> marshal
+\* @type: ({ claims: Str, msg: { st: Str, payload: Str, alg: Str, sig: { k: Str, a: Str, p: Str } }, replaced: Bool }, { kind: Str, k: Str, a: Str }, Bool) => { post: { claims: Str, msg: { st: Str, payload: Str, alg: Str, sig: { k: Str, a: Str, p: Str } }, replaced: Bool }, ret: { ok: Bool, tok: { st: Str, payload: Str, alg: Str, sig: { k: Str, a: Str, p: Str } } } };
 SignF(s, sg, validate) ==
   IF s.claims = "nil" THEN [post |-> s, ret |-> Res(FALSE, NoMsg)]                         \* (outside the property: no claims attached)
   ELSE IF validate /\ ~ValidClaims(s.claims)
@@ -60,6 +77,7 @@ SignF(s, sg, validate) ==
          [] sg.kind = "good"  -> LET m2 == [m1 EXCEPT !.sig = Sig(sg.k, sg.a, s.claims)] IN
                                  [post |-> EvState(s.claims, m2, FALSE), ret |-> Res(TRUE, m2)]
 \* UnmarshalCOSE: reset envelope; envelope decode (message replaced only on success); claims := decode(payload), nil on error
+\* @type: ({ claims: Str, msg: { st: Str, payload: Str, alg: Str, sig: { k: Str, a: Str, p: Str } }, replaced: Bool }, { wf: Bool, payload: Str, alg: Str, sig: { k: Str, a: Str, p: Str } }) => { post: { claims: Str, msg: { st: Str, payload: Str, alg: Str, sig: { k: Str, a: Str, p: Str } }, replaced: Bool }, ret: { ok: Bool, tok: { st: Str, payload: Str, alg: Str, sig: { k: Str, a: Str, p: Str } } } };
 UnmarshalF(s, t) ==
   IF ~t.wf \/ t.sig = NoSig
   THEN [post |-> EvState(s.claims, FreshMsg, s.replaced), ret |-> Res(FALSE, NoMsg)]
@@ -68,12 +86,15 @@ UnmarshalF(s, t) ==
        ELSE [post |-> EvState("nil", m, FALSE), ret |-> Res(FALSE, NoMsg)]
 \* Verify: message present; alg in the protected header; verifier for (alg, key); payload present;
 \* signature non-empty; signature valid for exactly this key, header and payload
+\* @type: ({ st: Str, payload: Str, alg: Str, sig: { k: Str, a: Str, p: Str } }, Str) => Bool;
 VerifyOKm(m, k) == /\ m.st = "some" /\ m.alg \in Algs /\ m.payload # "nil"
                    /\ m.sig # NoSig /\ m.sig = Sig(k, m.alg, m.payload)
+\* @type: ({ claims: Str, msg: { st: Str, payload: Str, alg: Str, sig: { k: Str, a: Str, p: Str } }, replaced: Bool }, Str) => { post: { claims: Str, msg: { st: Str, payload: Str, alg: Str, sig: { k: Str, a: Str, p: Str } }, replaced: Bool }, ret: { ok: Bool, tok: { st: Str, payload: Str, alg: Str, sig: { k: Str, a: Str, p: Str } } } };
 VerifyF(s, k) == [post |-> s, ret |-> Res(VerifyOKm(s.msg, k), NoMsg)]
 
 \* ---------- C20: what may decode as evidence (a necessary condition) ----------
 \* env: the independent reader's view of the presented bytes
+\* @type: ({ tag: Int, arrLen: Int, wf: Bool, sigLen: Int, trail: Int, payloadMap: Bool }) => Bool;
 EnvelopeOK(env) == /\ env.tag = 18                 \* COSE_Sign1 tag (not Mac0 = 17, Sign = 98, none, ...)
                    /\ env.arrLen = 4               \* exactly four elements
                    /\ env.wf                       \* protected bstr, unprotected map, byte-string payload, bstr signature
@@ -82,19 +103,30 @@ EnvelopeOK(env) == /\ env.tag = 18                 \* COSE_Sign1 tag (not Mac0 =
                    /\ env.payloadMap               \* the payload is itself a claims map
 
 \* ================= the state machine =================
-VARIABLES ev, signed, eret
+VARIABLES
+  \* @type: { claims: Str, msg: { st: Str, payload: Str, alg: Str, sig: { k: Str, a: Str, p: Str } }, replaced: Bool };
+  ev,
+  \* @type: Set({ k: Str, a: Str, p: Str });
+  signed,
+  \* @type: { op: Str, ok: Bool, tok: { st: Str, payload: Str, alg: Str, sig: { k: Str, a: Str, p: Str } } };
+  eret
 evars == <<ev, signed, eret>>
+\* @type: (Str, { ok: Bool, tok: { st: Str, payload: Str, alg: Str, sig: { k: Str, a: Str, p: Str } } }) => { op: Str, ok: Bool, tok: { st: Str, payload: Str, alg: Str, sig: { k: Str, a: Str, p: Str } } };
 RetRec(op, r) == [op |-> op, ok |-> r.ok, tok |-> r.tok]
-EInit == ev = EvInit /\ signed = {} /\ eret = RetRec("init", Res(TRUE, NoMsg))
+EInit == ev = EvInit /\ signed = ForeignSigs /\ eret = RetRec("init", Res(TRUE, NoMsg))
+\* @type: (Str, { post: { claims: Str, msg: { st: Str, payload: Str, alg: Str, sig: { k: Str, a: Str, p: Str } }, replaced: Bool }, ret: { ok: Bool, tok: { st: Str, payload: Str, alg: Str, sig: { k: Str, a: Str, p: Str } } } }) => Bool;
 Do(op, x) == ev' = x.post /\ eret' = RetRec(op, x.ret)
 SetClaims(c) == Do("SetClaims", SetClaimsF(ev, c)) /\ UNCHANGED signed
 Attach(c)    == Do("Attach", AttachF(ev, c)) /\ UNCHANGED signed
+\* @type: ({ kind: Str, k: Str, a: Str }, Bool) => Bool;
 SignWith(sg, validate) ==
   LET x == SignF(ev, sg, validate) IN
   /\ Do(IF validate THEN "ValidateAndSign" ELSE "Sign", x)
   /\ signed' = IF x.ret.ok /\ sg.kind = "good" THEN signed \cup {x.post.msg.sig} ELSE signed
 \* the adversary presents any token it can build: signatures only of messages honest signers signed
+\* @type: ({ wf: Bool, payload: Str, alg: Str, sig: { k: Str, a: Str, p: Str } }) => Bool;
 Available(t) == t.sig \in {NoSig, Junk} \/ t.sig \in signed
+\* @type: ({ wf: Bool, payload: Str, alg: Str, sig: { k: Str, a: Str, p: Str } }) => Bool;
 Unmarshal(t) == Available(t) /\ Do("UnmarshalCOSE", UnmarshalF(ev, t)) /\ UNCHANGED signed
 Verify(k)    == Do("Verify", VerifyF(ev, k)) /\ UNCHANGED signed
 ENext == \/ \E c \in ClaimIds : SetClaims(c) \/ Attach(c)
@@ -130,4 +162,24 @@ GoodSignVerifies == [][(eret'.op \in {"Sign", "ValidateAndSign"} /\ eret'.ok /\ 
 \* signing twice yields two independently valid tokens: decoding either verifies
 TwoSignsTwoTokens == \A s \in signed : VerifyOKm([st |-> "some", payload |-> s.p, alg |-> s.a, sig |-> s], s.k)
 EView == <<ev, signed>>
+
+(***************************************************************************)
+(* An inductive invariant, checked symbolically by Apalache for constants  *)
+(* larger than TLC's exhaustive runs (3 keys x 7 algorithms x 4 claims):   *)
+(*   EInit => IndInv      (apalache-mc check --init=EInit --inv=IndInv --length=0)                 *)
+(*   IndInv /\ ENext => IndInv'   (--init=IndInv --inv=IndInv --length=1)                          *)
+(* i.e. Binding, NoForgery and TwoSignsTwoTokens hold in every reachable   *)
+(* state for those constants, whatever the history.                        *)
+(***************************************************************************)
+Msgs == [st : {"none", "some"}, payload : Payloads, alg : Algs \cup {"none", "unsupported"}, sig : AllSigs]
+OpNames == {"init", "SetClaims", "Attach", "Sign", "ValidateAndSign", "UnmarshalCOSE", "Verify"}
+TypeOK == /\ ev \in [claims : ClaimIds \cup {"nil"}, msg : Msgs, replaced : BOOLEAN]
+          /\ signed \in SUBSET ({Sig(k, a, p) : k \in Keys, a \in Algs, p \in ClaimIds} \cup ForeignSigs)
+          /\ ForeignSigs \subseteq signed
+          /\ eret \in [op : OpNames, ok : BOOLEAN, tok : Msgs]
+\* the envelope's signature is one an honest key made, arbitrary bytes, or none
+SigKnown == ev.msg.sig \in signed \cup {NoSig, Junk}
+IndInv == TypeOK /\ SigKnown /\ Binding /\ NoForgery /\ TwoSignsTwoTokens
+ApaConstants == /\ Keys = {"k1", "k2", "k3"} /\ Algs = {"ES256", "ES384", "ES512", "EdDSA", "PS256", "PS384", "PS512"}
+                /\ ClaimIds = {"cA", "cB", "cC", "cBad"} /\ InvalidIds = {"cBad"}
 ====
